@@ -12,6 +12,8 @@
                                                        -> valid|invalid <clause>  recur=eq|ne|skip
                    noroute <req> X <k> <scid>* B <k> <idx>* G <n> (<chan>)*     -> ref=found | ref=none
                    matchscid <alias|-> <scid|-> <hint_scid>   -> 0|1   (generated `matches_an_scid`)
+                   sortfh <recommended> U <k> (<scid> <dir> <msat>)* C <n> (<payment scid> <dir> <limit>)*  -> sorted <remaining limit>*
+                   select <final> <collected value>*   -> err no-path|insufficient | kept <v>* over <n> out <v>*|panic
      <req>  = <payer> <payee> <amt> <maxfee|-> <maxcltv> <maxpaths> <maxlen> <finalcltv> <hasfirst> <mpp> <satpow> <scorer> <seed>
               (the last four are replay information for the harness, ignored here)
      <chan> = <kind> <scid> - <src> <dst> <enabled> <htlcmin> <htlcmax|-> <cap_msat|-> <base> <prop> <cltv>
@@ -20,8 +22,9 @@
               all fields are the RAW data (the generated candidate_* tables decide what the router reads) -/
 import LdkModel.Driver.Util
 import LdkModel.Model.RouteValid
+import LdkModel.Model.RouteSelect
 namespace Ldk.Driver
-open Ldk Ldk.Router Ldk.RouteFees Ldk.RouteValid
+open Ldk Ldk.Router Ldk.RouteFees Ldk.RouteValid Ldk.RouteSelect
 
 def optNat (s : String) : Option Nat := if s == "-" then none else some (nat! s)
 
@@ -97,6 +100,12 @@ def detailsOf (alias scid : Option Nat) (mn limit : Nat) (cpMin : Option Nat) : 
     short_channel_id := scid, outbound_scid_alias := alias,
     counterparty_outbound_htlc_minimum_msat := cpMin, counterparty_outbound_htlc_maximum_msat := some (Nat.min (limit * 3 + 11) U64_MAX) }
 
+/-- `(<scid> <direction 0|1> <msat>)*` -/
+def takeTriples : Nat → List String → List (Nat × Bool × Nat) → Option (List (Nat × Bool × Nat) × List String)
+  | 0, ws, acc => some (acc.reverse, ws)
+  | n + 1, a :: b :: c :: ws, acc => takeTriples n ws ((nat! a, b == "1", nat! c) :: acc)
+  | _, _, _ => none
+
 def parseChans : Nat → List String → List Chan → Option (List Chan × List String)
   | 0, ws, acc => some (acc.reverse, ws)
   | n + 1, k :: s :: alt :: a :: b :: e :: mn :: mx :: cap :: base :: prop :: cltv :: rest, acc =>
@@ -169,6 +178,20 @@ def c16router : Drv where
            | some (p, g, []) => if singlePathExists g p then "ref=found" else "ref=none"
            | _ => "bad-op")
     | ["matchscid", a, s, h] => ((), if matches_an_scid (optNat a) (optNat s) (nat! h) then "1" else "0")
+    | "sortfh" :: r :: "U" :: m :: rest =>
+      -- C16-r6: sort_first_hop_channels — the remaining limits (translated) in the order of the TRANSLATED comparator
+      ((), match takeTriples (nat! m) rest [] with
+           | some (used, "C" :: k :: rest') =>
+             match takeTriples (nat! k) rest' [] with
+             | some (chans, []) => "sorted" ++ natsStr (sortFirstHops (nat! r) used chans)
+             | _ => "bad-op"
+           | _ => "bad-op")
+    | "select" :: f :: vals =>
+      -- C16-r6: get_route steps (5)–(7) on collected path values in step (6)'s order (translated statements); the first kept path is reduced
+      ((), match selectPaths (nat! f) (vals.map fun v => nat! v) with
+           | .error e => "err " ++ e
+           | .ok (kept, over) => "kept" ++ natsStr kept ++ " over " ++ toString over ++ " out" ++
+               (match reduceFirst kept over with | some out => natsStr out | none => " panic"))
     | ["pubcap", hmax, sats] =>
       -- the TRANSLATED DirectedChannelInfo::effective_capacity and the translated max_htlc_from_capacity at saturation power 0
       let cap := directed_channel_effective_capacity (nat! hmax) (optNat sats)
